@@ -134,7 +134,11 @@ func c16trace(args []string) int {
 	k, _ := strconv.Atoi(args[0])
 	nonce := os.Getenv("C16_NONCE")
 	devnull()
-	ch := &forkexec.Runner{Args: []string{probe("tree"), nonce, "i,p+,o", "pause"}, Env: []string{}, Files: stdioNull(), Seccomp: allowAll().SockFprog(), Ptrace: true, UnshareCgroupAfterSync: true}
+	shape := "i,p+,o"
+	if s := os.Getenv("C16_TREE"); s != "" {
+		shape = s
+	}
+	ch := &forkexec.Runner{Args: []string{probe("tree"), nonce, shape, "pause"}, Env: []string{}, Files: stdioNull(), Seccomp: allowAll().SockFprog(), Ptrace: true, UnshareCgroupAfterSync: true}
 	t := ptracer.Tracer{Handler: &c16stepper{k: k}, Runner: ch, Limit: bigLimit}
 	t.Trace(context.Background())
 	fmt.Println("DONE")
@@ -168,7 +172,7 @@ func init() {
 		spec := &mc.Spec{
 			Level: "fault_enumeration",
 			Rule: "container: operation ∈ {ping, open, reset, execve (sync before / after exec) of a process tree with a signal-ignoring child, a double-forked daemon, a grandchild and a HUP/TERM-ignoring child} × crash point ∈ {idle after build, host held at send-pre / send-post / recv, inside the callback, send-pre(ok), select, while the program runs, " +
-				"container held at dispatch / started / select / reply withheld, while the init runs a long init command during build}: the controller (a helper process) is SIGKILLed exactly there; tracer: the tracing process is SIGKILLed at every tracer step of a run of the same kind of tree, and on the vfork launch path while its child is held before PTRACE_TRACEME (child released afterwards or never; with and without a credential switch in the child). " +
+				"container held at dispatch / started / select / reply withheld, while the init runs a long init command during build}: the controller (a helper process) is SIGKILLed exactly there; tracer: the tracing process is SIGKILLed at every tracer step of a run of the same kind of tree (descendants made by fork, or by clone(CLONE_UNTRACED)), and on the vfork launch path while its child is held before PTRACE_TRACEME (child released afterwards or never; with and without a credential switch in the child). " +
 				"Oracle: the container init and every process carrying the run's nonce are gone within the horizon without further action. distinct = (operation, crash point, what was alive before / after)",
 			Bound:       map[string]any{"tree": c16shape, "tracer_steps": 40},
 			Assumptions: []string{"a launcher child that has not exec'ed the target yet is not an untrusted process", "the three mechanisms (parent-death signal, socket EOF, pid-namespace teardown; PTRACE_O_EXITKILL) overlap: crash points where only one of them applies are in the alphabet on purpose (container held inside a point that does not watch the socket; init busy with the init command)"},
@@ -302,14 +306,18 @@ func childInits(pid int) []int {
 
 func c16tracer(x *mc.X, tier string) {
 	k := x.Choose(40, "tracer-step")
-	x.Note("crash", fmt.Sprintf("tracing process killed at tracer step %d", k))
+	// the program's descendants: ordinary forks (ignoring signals, outliving the parent), or children created with
+	// clone(CLONE_UNTRACED), which the tracer's fork/clone options cannot attach
+	tree := x.Pick("descendants", "i,p+,o", "u+,i")
+	untraced := strings.Contains(tree, "u")
+	x.Note("crash", fmt.Sprintf("tracing process killed at tracer step %d; tree %s", k, tree))
 	if x.Dry() {
 		return
 	}
 	nonce := newNonce()
 	self, _ := os.Executable()
 	cmd := exec.Command(self, "c16trace", fmt.Sprint(k))
-	cmd.Env = append(os.Environ(), "C16_NONCE="+nonce)
+	cmd.Env = append(os.Environ(), "C16_NONCE="+nonce, "C16_TREE="+tree)
 	cmd.SysProcAttr = &syscall.SysProcAttr{Setsid: true}
 	out, _ := cmd.StdoutPipe()
 	cmd.Stderr = os.Stderr
@@ -359,10 +367,16 @@ func c16tracer(x *mc.X, tier string) {
 		}
 		return u
 	}
-	gone := waitUntil(horizon, func() bool { return len(untrusted()) == 0 })
-	x.Distinct(fmt.Sprint("tracer", k, len(before), gone))
+	patience := horizon
+	if untraced {
+		patience = 3 * time.Second // what dies with the tracer is gone within milliseconds; what does not, never goes
+	}
+	gone := waitUntil(patience, func() bool { return len(untrusted()) == 0 })
+	x.Distinct(fmt.Sprint("tracer", k, tree, len(before), gone))
 	x.Outcome(fmt.Sprintf("tracer-killed:alive-before=%d:gone=%v", len(before), gone))
-	if !gone {
+	if !gone && untraced {
+		x.Failf("C16/tracer/untraced-clone-child-survives", "tracing process killed at tracer step %d%s: the program had created children with clone(CLONE_UNTRACED); processes %v are still alive after the horizon", k, phase, untrusted())
+	} else if !gone {
 		x.Failf("C16/tracer/survives"+phase, "tracing process killed at tracer step %d%s: traced processes %v are still alive after the horizon", k, phase, untrusted())
 	}
 	killNonce(nonce)
